@@ -624,7 +624,19 @@ pub fn gen_cfg(r: &mut Rng, o: &GenOpts) -> BuildCfg {
 
 /// canonical installed path of a destination ("./a/b" and "/a/b" both mean "/a/b")
 pub fn installed_path(dest: &str) -> String {
-    dest.strip_prefix('.').unwrap_or(dest).to_string()
+    let p = dest.strip_prefix('.').unwrap_or(dest);
+    // repeated separators do not change which file is meant
+    String::from_utf8(crate::model::codec::collapse_slashes(p.as_bytes())).unwrap_or_else(|_| p.to_string())
+}
+
+/// the same destination spelled with one separator doubled ("/etc//x", "//opt/x", ".//a/b")
+pub fn respell_with_double_separator(dest: &str, r: &mut Rng) -> String {
+    let at: Vec<usize> = dest.char_indices().filter(|(_, c)| *c == '/').map(|(i, _)| i).collect();
+    if at.is_empty() {
+        return dest.to_string();
+    }
+    let i = at[r.usize(at.len())];
+    format!("{}/{}", &dest[..i], &dest[i..])
 }
 
 /// the mode word the header must carry for a file
